@@ -396,6 +396,9 @@ func (g *vfGen) next() vfRec {
 		r.Hdr = map[string][]byte{"h": []byte("v")}
 	case 2:
 		r.Hdr = map[string][]byte{"": {}, "k2": g.rng.Bytes(g.rng.Range(0, 40)), "reply": []byte("x")}
+	case 3:
+		// a header without a value (a published protobuf map entry may omit it)
+		r.Hdr = map[string][]byte{"novalue": nil, "h": []byte("v")}
 	}
 	return r
 }
